@@ -67,28 +67,43 @@ class TagEnv(object):
       return 0, ''
 
   def stored(self, x):
-    self.cache._Cache = None
-    p = self.cache.CacheFeedingProcessor()
-    try:
-      list(p.process(x, (1.0, 2.0)))
-    except Exception as e:
+    """the name the daemon's (long-lived) CacheFeedingProcessor stores two consecutive datapoints of series x under"""
+    if getattr(self, 'proc', None) is None:
       self.cache._Cache = None
+      self.proc = self.cache.CacheFeedingProcessor()
+      self.nstored = 0
+    mc = self.cache.MetricCache()
+    self.nstored += 1
+    t1, t2 = float(self.nstored), self.nstored + 0.5
+    try:
+      list(self.proc.process(x, (t1, 2.0)))
+      list(self.proc.process(x, (t2, 2.0)))
+    except Exception as e:
+      for k in list(mc.keys()):
+        mc.pop(k)
       return '<process() raised %s: the datapoint is lost>' % type(e).__name__
-    keys = list(self.cache.MetricCache().keys())
-    self.cache._Cache = None
-    return keys[0] if len(keys) == 1 else '<%d keys>' % len(keys)
+    keys = [k for k in list(mc.keys()) if t1 in dict.get(mc, k, {}) or t2 in dict.get(mc, k, {})]
+    both = [k for k in keys if t1 in dict.get(mc, k, {}) and t2 in dict.get(mc, k, {})]
+    for k in list(mc.keys()):
+      mc.pop(k)
+    return both[0] if len(keys) == 1 and both else '<%d keys>' % len(keys)
 
   def relayed(self, x):
-    rec = Recorder()
-    self.state.client_manager = rec
-    p = self.client.RelayProcessor()
+    """the name the relay's (long-lived) RelayProcessor forwards two consecutive datapoints of series x under"""
+    if getattr(self, 'rproc', None) is None:
+      self.rrec = Recorder()
+      self.rproc = self.client.RelayProcessor()
+    self.state.client_manager = self.rrec
+    del self.rrec.names[:]
     try:
-      list(p.process(x, (1.0, 2.0)))
+      list(self.rproc.process(x, (1.0, 2.0)))
+      list(self.rproc.process(x, (2.0, 2.0)))
     except Exception as e:
       self.state.client_manager = None
       return '<process() raised %s: the datapoint is lost>' % type(e).__name__
     self.state.client_manager = None
-    return rec.names[0] if len(rec.names) == 1 else '<%d names>' % len(rec.names)
+    names = list(self.rrec.names)
+    return names[0] if len(names) == 2 and names[0] == names[1] else '<%d names>' % len(set(names))
 
 
 def om_escape(v):
@@ -126,6 +141,12 @@ def run(ctx):
   te = TagEnv(ctx)
   rng = ctx.rng
   recs = []
+  # long uptime with series churn: a hundred thousand distinct series have been seen before the ones judged below
+  for k in range(100100):
+    try:
+      te.util.TaggedSeries.parse('warm.s%d;b=2;a=1' % k)
+    except Exception:
+      pass
   # (i) arbitrary carbon-syntax strings
   for _ in range(ctx.pick(2500, 40000)):
     n = rng.randint(1, 14)
@@ -219,7 +240,13 @@ def run(ctx):
                                   stored=''.join(map(chr, rec['stored']))), signature=f)
   ctx.sample(dict(kind='tag case', input=recs[-1]['text'], parsed=''.join(map(chr, recs[-1]['parsed']))))
   import copy
-  bad = copy.deepcopy(next(r for r in recs if r['kind'] == 'series' and len(r['tags']) >= 2 and r['ok']))
+  cand = [r for r in recs if r['kind'] == 'series' and len(r['tags']) >= 2 and r['ok']]
+  if not cand:
+    if not ctx.violations:
+      raise Machinery('C18: no accepted multi-tag series among the cases')
+    ctx.neg_controls.append(dict(name='skipped: no series was accepted (every case is flagged)', rejected=True))
+    return
+  bad = copy.deepcopy(cand[0])
   bad['parsed'] = bad['parsed'][::-1]
   r, done, b2 = tlc.validate_batch(mc, cfg, ctx.scratch, [bad], workers=1, files=files)
   fl = set(v[2] for v in tlc.extract_prints(r.out, 'F'))
